@@ -137,6 +137,53 @@ func TestC09_BlocksNeverAbort(t *testing.T) {
 			}
 		}
 
+		skipIds := func(t *rapid.T) {
+			idSkips++
+			delta := uint64(rapid.SampledFrom([]int{999, 1000, 1001, 1500, 5000}).Draw(t, "delta"))
+			ctx := c.Ctx()
+			ider := keeperutil.NewIDGenerator(c.App.ConsensusKeeper, nil)
+			const counter = "consensus-queue-counter-"
+			cur := ider.GetLastID(ctx, counter)
+			c.App.ConsensusKeeper.Store(ctx).Set(append([]byte("generated-ids-"), counter...), keeperutil.Uint64ToByte(cur+delta))
+			if got := ider.GetLastID(ctx, counter); got != cur+delta {
+				t.Fatalf("fixture: message id counter is %d, expected %d", got, cur+delta)
+			}
+			block(t, "skipMessageIds")
+			log = append(log, fmt.Sprintf("h%d:skipMessageIds(%d->%d)", c.H-1, cur, cur+delta))
+		}
+		// half of the chains have a long history behind them already
+		if rapid.Bool().Draw(t, "longHistoryBehind") {
+			skipIds(t)
+		}
+		// governance sets the minimum relayer version, at once or scheduled for a height a few blocks ahead; proposals
+		// overtake, repeat and contradict each other
+		versionProposal := func(t *rapid.T) {
+			ver := rapid.SampledFrom([]string{"v1.11.3", "v1.12.0", "v1.13.0", "v2.0.0", "v1.12.0", "v0.9.0", "garbage", ""}).Draw(t, "minVersion")
+			target := uint64(0)
+			if rapid.IntRange(0, 2).Draw(t, "scheduled") > 0 {
+				target = uint64(c.H + int64(rapid.SampledFrom([]int{-1, 0, 1, 2, 3, 5, 8, 9}).Draw(t, "in")))
+			}
+			err := c09GovContent(c, &vtypes.SetPigeonRequirementsProposal{Title: "t", Description: "d", MinVersion: ver, TargetBlockHeight: target}, valset.NewValsetProposalHandler(c.App.ValsetKeeper))
+			log = append(log, fmt.Sprintf("h%d:gov(minRelayerVersion %q at %d)=%v", c.H, ver, target, err == nil))
+			if err == nil && target > uint64(c.H) {
+				scheduledVersions++
+				// the schedule is overtaken by a proposal that takes effect at once, and the chain walks to the
+				// scheduled height
+				if rapid.Bool().Draw(t, "overtaken") {
+					nv := rapid.SampledFrom([]string{"v1.12.0", "v1.13.0", "v2.0.0", "v2.1.0", "v1.11.3"}).Draw(t, "overtakingVersion")
+					err2 := c09GovContent(c, &vtypes.SetPigeonRequirementsProposal{Title: "t", Description: "d", MinVersion: nv}, valset.NewValsetProposalHandler(c.App.ValsetKeeper))
+					log = append(log, fmt.Sprintf("h%d:gov(minRelayerVersion %q at once)=%v", c.H, nv, err2 == nil))
+					for uint64(c.H) <= target {
+						block(t, "relayerVersionProposal")
+					}
+				}
+			}
+			block(t, "relayerVersionProposal")
+		}
+		// a third of the chains start with relayer-version governance under way
+		if rapid.IntRange(0, 2).Draw(t, "versionGovernanceUnderWay") == 0 {
+			versionProposal(t)
+		}
 		t.Repeat(map[string]func(*rapid.T){
 			"relayerFee": func(t *rapid.T) {
 				v := c.Vals[rapid.IntRange(0, n-1).Draw(t, "val")]
@@ -315,21 +362,7 @@ func TestC09_BlocksNeverAbort(t *testing.T) {
 				oks := block(t, "statusUpdate", c.MustSign(v.Actor, &palomatypes.MsgAddStatusUpdate{Metadata: chain.MD(v.Actor), Status: "s", Level: lvl}))
 				log = append(log, fmt.Sprintf("h%d:status(level %d)=%v", c.H-1, lvl, oks[0]))
 			},
-			// governance sets the minimum relayer version, at once or scheduled for a height a few blocks ahead; proposals
-			// overtake, repeat and contradict each other
-			"relayerVersionProposal": func(t *rapid.T) {
-				ver := rapid.SampledFrom([]string{"v1.11.3", "v1.12.0", "v1.13.0", "v2.0.0", "v0.9.0", "garbage", ""}).Draw(t, "minVersion")
-				target := uint64(0)
-				if rapid.Bool().Draw(t, "scheduled") {
-					target = uint64(c.H + int64(rapid.IntRange(-1, 9).Draw(t, "in")))
-				}
-				err := c09GovContent(c, &vtypes.SetPigeonRequirementsProposal{Title: "t", Description: "d", MinVersion: ver, TargetBlockHeight: target}, valset.NewValsetProposalHandler(c.App.ValsetKeeper))
-				log = append(log, fmt.Sprintf("h%d:gov(minRelayerVersion %q at %d)=%v", c.H, ver, target, err == nil))
-				if err == nil && target > uint64(c.H) {
-					scheduledVersions++
-				}
-				block(t, "relayerVersionProposal")
-			},
+			"relayerVersionProposal": versionProposal,
 			"govSettings": func(t *rapid.T) {
 				var err error
 				what := rapid.SampledFrom([]string{"relayWeights", "bridgeTax", "transferLimit", "minBalance"}).Draw(t, "what")
@@ -421,18 +454,7 @@ func TestC09_BlocksNeverAbort(t *testing.T) {
 				if idSkips >= 2 {
 					t.Skip("enough")
 				}
-				idSkips++
-				delta := uint64(rapid.SampledFrom([]int{999, 1000, 1001, 1500, 5000}).Draw(t, "delta"))
-				ctx := c.Ctx()
-				ider := keeperutil.NewIDGenerator(c.App.ConsensusKeeper, nil)
-				const counter = "consensus-queue-counter-"
-				cur := ider.GetLastID(ctx, counter)
-				c.App.ConsensusKeeper.Store(ctx).Set(append([]byte("generated-ids-"), counter...), keeperutil.Uint64ToByte(cur+delta))
-				if got := ider.GetLastID(ctx, counter); got != cur+delta {
-					t.Fatalf("fixture: message id counter is %d, expected %d", got, cur+delta)
-				}
-				block(t, "skipMessageIds")
-				log = append(log, fmt.Sprintf("h%d:skipMessageIds(%d->%d)", c.H-1, cur, cur+delta))
+				skipIds(t)
 			},
 			"advance": func(t *rapid.T) {
 				k := rapid.SampledFrom([]int{1, 2, 6, 12, 55}).Draw(t, "blocks")
